@@ -389,7 +389,19 @@ def execute(plan, run):
             for a, s in actors.items()}
     if frac:
         run.probe('fractional_now')
-    events = [(o['at_us'], 0, oid, None) for oid, o in plan['outputs'].items()]
+    outputs = {oid: dict(o) for oid, o in plan['outputs'].items()}
+    if plan['idx'] % 9 == 4:
+        # one value in two roles: the tweak scalar of the tweaked PTLC outputs is the
+        # receiver's own private scalar, so that the tweak point equals the receiver key
+        code = bytes([F.opcodes_inverse['OP_PUSH1'][0], 32]) + keys['R'][0] + \
+            T.compile_script('derive_scalar')
+        x = real('derive_scalar', lambda: F.run_script(code)[1].get())
+        if isinstance(x, bytes) and len(x) == 32 and base_mult(x) == keys['R'][1]:
+            for o in outputs.values():
+                if o['kind'] == 'ptlc_tweak':
+                    o['tweak'] = x.hex()
+                    run.probe('tweak_point_equals_receiver_key')
+    events = [(o['at_us'], 0, oid, None) for oid, o in outputs.items()]
     events += [(s['at_us'], 1, i, s) for i, s in enumerate(plan['steps'])]
     events.sort(key=lambda e: (e[0], e[1], str(e[2])))
     locks = {}
@@ -398,7 +410,7 @@ def execute(plan, run):
     for at, typ, ref, step in events:
         CLOCK.tau = max(CLOCK.tau, at)
         if typ == 0:
-            out = plan['outputs'][ref]
+            out = outputs[ref]
             CLOCK.latency_us = 0
             CLOCK.begin_call('S')
             try:
@@ -419,7 +431,7 @@ def execute(plan, run):
         i = ref
         if step['out'] not in locks:
             continue
-        out = plan['outputs'][step['out']]
+        out = outputs[step['out']]
         lock, created = locks[step['out']]
         deadline = created + out['timeout']
         pre = bytes.fromhex(out['preimage'])
